@@ -632,8 +632,10 @@ def openFlowFee (c : Cfg) (e : Env) (a amount : Nat) : Res (Nat × List Msg) :=
       if same && decide (flowAmt < INCENTIVE_MIN_FLOW_AMOUNT) then .err
       else if paid < fee then .err
       else
+        -- an over-paid fee is refunded unless the flow is opened in the fee denom itself (then the funds
+        -- must be exactly flow + fee, checked below): native flow asset of another denom, or a cw20 one
         let refund : List Msg :=
-          if fee < paid && c.native a && decide (a ≠ fa) then [.send INC e.sender fa (paid - fee)] else []
+          if fee < paid && !same then [.send INC e.sender fa (paid - fee)] else []
         let out : Nat × List Msg := (flowAmt, refund ++ [Msg.send INC COLLECTOR fa fee])
         if same then
           match cadd U128MAX flowAmt fee with
